@@ -121,7 +121,7 @@ def main():
             else:
                 chk.violation('unexpected outcome %s %s' % (o, run['detail']), files, info)
     # launch argument / capture delivery
-    nd = 150 if tier == 'quick' else 3000
+    nd = 400 if tier == 'quick' else 8000
     for d in vlib.pmap(run_delivery, [(seed, i) for i in range(nd)], chunksize=8):
         chk.evaluations += 1
         chk.count('delivery_programs')
